@@ -7,8 +7,8 @@ the buffer block, and `exp_factor` in the form of the function `grow c = (size_t
 the same statements in the same order.  `size_t` is `Nat`; the places where the C text relies on
 unsigned wrap-around (`size - 1` on an empty array, `index - 1` at 0) use `wdec`.
 The allocators of the struct are not modelled as fields: every allocation goes through `Mem`.
-Byte-size products (`capacity * sizeof(void*)`) are taken in `Nat`, i.e. the model assumes they do
-not wrap (DESIGN §7). A loop that reads the slots `[0,size)` is preceded by one check
+Byte-size products (`capacity * sizeof(void*)`) never wrap: the constructor (A9) and
+`expand_capacity` (A10) refuse every capacity above `CC_MAX_ELEMENTS / 8`, which is part of `Inv`. A loop that reads the slots `[0,size)` is preceded by one check
 `size ≤ buf.length` instead of one check per slot. -/
 namespace CC
 
@@ -32,10 +32,11 @@ open Spec.Seq (wdec)
 def abs (a : Arr) : List Nat := (List.range a.size).map a.buf.get
 
 /-- representation invariant: the live slots fit the capacity, the capacity fits the allocated
-block, the capacity is at least 1 and at most `CC_MAX_ELEMENTS` (the constructor rejects larger
-values, and `expand_capacity` stops there) -/
+block, the capacity is at least 1 and its byte size does not wrap
+(`capacity ≤ CC_MAX_ELEMENTS / sizeof(void*)`: guaranteed by the constructor — A9 — and by
+`expand_capacity` — A10 — for every growth function) -/
 def Inv (a : Arr) : Prop :=
-  a.size ≤ a.capacity ∧ a.capacity ≤ a.buf.length ∧ 1 ≤ a.capacity ∧ a.capacity ≤ Gen.CC_MAX_ELEMENTS
+  a.size ≤ a.capacity ∧ a.capacity ≤ a.buf.length ∧ 1 ≤ a.capacity ∧ a.capacity ≤ Gen.CC_MAX_ELEMENTS / 8
 
 instance (a : Arr) : Decidable a.Inv := by unfold Inv; infer_instance
 
@@ -43,6 +44,8 @@ instance (a : Arr) : Decidable a.Inv := by unfold Inv; infer_instance
 def new (cap : Nat) (grow : Nat → Nat) (exGe : Nat → Bool) (m : Mem) : Stat × Option Arr × Mem :=
   if cap = 0 then (.errInvalidCapacity, none, m) else
   if exGe (Gen.CC_MAX_ELEMENTS / cap) then (.errInvalidCapacity, none, m) else
+  -- `conf->capacity > CC_MAX_ELEMENTS / sizeof(void*)`: the byte size must not wrap (A9)
+  if cap > Gen.CC_MAX_ELEMENTS / 8 then (.errInvalidCapacity, none, m) else
   let a1 := m.alloc
   if !a1.1 then (.errAlloc, none, a1.2) else
   let a2 := a1.2.alloc
@@ -67,6 +70,8 @@ def newCapacity (a : Arr) : Nat :=
 def expandCapacity (a : Arr) (m : Mem) : Stat × Arr × Mem :=
   if a.capacity = Gen.CC_MAX_ELEMENTS then (.errMaxCapacity, a, m) else
   let nc := a.newCapacity
+  -- `new_capacity > CC_MAX_ELEMENTS / sizeof(void*)`: the byte size must not wrap (A10)
+  if nc > Gen.CC_MAX_ELEMENTS / 8 then (.errMaxCapacity, a, m) else
   let al := m.alloc
   if !al.1 then (.errAlloc, a, al.2) else
   let m := al.2.check (a.size ≤ a.buf.length && a.size ≤ nc)
@@ -289,6 +294,41 @@ def sort (sortFn : List Nat → List Nat) (a : Arr) (m : Mem) : Arr × Mem :=
   ({ a with buf := (List.range a.buf.length).map fun j => if j < a.size then sorted.getD j 0 else a.buf.get j },
    m.check (a.size ≤ a.buf.length))
 
+/-! ## histories of a single array -/
+
+open Spec.Seq (Cfg Op Out) in
+/-- one call of the public API on the concrete state -/
+def step (cfg : Cfg) (a : Arr) (op : Op) (m : Mem) : Out × Arr × Mem :=
+  match op with
+  | .add x => let r := a.add x m; ({ st := some r.1 }, r.2.1, r.2.2)
+  | .addAt x i => let r := a.addAt x i m; ({ st := some r.1 }, r.2.1, r.2.2)
+  | .trimCapacity => let r := a.trimCapacity m; ({ st := some r.1 }, r.2.1, r.2.2)
+  | .replaceAt x i => let r := a.replaceAt x i m; ({ st := some r.1, val := r.2.1 }, r.2.2.1, r.2.2.2)
+  | .swapAt i j => let r := a.swapAt i j m; ({ st := some r.1 }, r.2.1, r.2.2)
+  | .remove x => let r := a.remove x m; ({ st := some r.1, val := r.2.1 }, r.2.2.1, r.2.2.2)
+  | .removeAt i => let r := a.removeAt i m; ({ st := some r.1, val := r.2.1 }, r.2.2.1, r.2.2.2)
+  | .removeLast => let r := a.removeLast m; ({ st := some r.1, val := r.2.1 }, r.2.2.1, r.2.2.2)
+  | .removeAll => ({}, a.removeAll, m)
+  | .removeAllFree => let r := a.removeAllFree m; ({ val := some r.1 }, r.2.1, r.2.2)
+  | .reverse => let r := a.reverse m; ({}, r.1, r.2)
+  | .filterMut => let r := a.filterMut cfg.pred m; ({ st := some r.1, log := r.2.2.1 }, r.2.1, r.2.2.2)
+  | .sort => let r := a.sort cfg.sortFn m; ({}, r.1, r.2)
+  | .getAt i => let r := a.getAt i m; ({ st := some r.1, val := r.2.1 }, a, r.2.2)
+  | .getLast => let r := a.getLast m; ({ st := some r.1, val := r.2.1 }, a, r.2.2)
+  | .indexOf x => let r := a.indexOf x m; ({ st := some r.1, val := r.2.1 }, a, r.2.2)
+  | .contains x => let r := a.contains x m; ({ val := some r.1 }, a, r.2)
+  | .containsValue x => let r := a.containsValue cfg.cmp x m; ({ val := some r.1 }, a, r.2)
+  | .size => ({ val := some a.size }, a, m)
+  | .map => let r := a.map m; ({ log := r.1 }, a, r.2)
+  | .reduce r0 => let r := a.reduce cfg.fn r0 m; ({ val := some r.2.1, log := r.1 }, a, r.2.2)
+
+open Spec.Seq (Cfg Op Out) in
+/-- a history on the concrete state -/
+def run (cfg : Cfg) (a : Arr) (ops : List Op) (m : Mem) : List Out × Arr × Mem :=
+  match ops with
+  | [] => ([], a, m)
+  | op :: ops => let s := a.step cfg op m; let rs := run cfg s.2.1 ops s.2.2; (s.1 :: rs.1, rs.2.1, rs.2.2)
+
 /-! ## iterator -/
 
 /-- `cc_array_iter_next` -/
@@ -316,6 +356,25 @@ def iterReplace (a : Arr) (it : ArrIter) (x : Nat) (m : Mem) : Stat × Option Na
 /-- `cc_array_iter_index` -/
 def iterIndex (it : ArrIter) : Nat := wdec it.index
 
+open Spec.Seq (IterOp Out) in
+/-- one iterator call on the concrete array and cursor -/
+def iterStep (a : Arr) (it : ArrIter) (op : IterOp) (m : Mem) : Out × Arr × ArrIter × Mem :=
+  match op with
+  | .next => let r := a.iterNext it m; ({ st := some r.1, val := r.2.1 }, a, r.2.2.1, r.2.2.2)
+  | .remove => let r := a.iterRemove it m; ({ st := some r.1, val := r.2.1 }, r.2.2.1, r.2.2.2.1, r.2.2.2.2)
+  | .add x => let r := a.iterAdd it x m; ({ st := some r.1 }, r.2.1, r.2.2.1, r.2.2.2)
+  | .replace x => let r := a.iterReplace it x m; ({ st := some r.1, val := r.2.1 }, r.2.2.1, it, r.2.2.2)
+  | .index => ({ val := some (iterIndex it) }, a, it, m)
+
+open Spec.Seq (IterOp Out) in
+def iterRun (a : Arr) (it : ArrIter) (ops : List IterOp) (m : Mem) : List Out × Arr × ArrIter × Mem :=
+  match ops with
+  | [] => ([], a, it, m)
+  | op :: ops =>
+    let s := a.iterStep it op m
+    let rs := iterRun s.2.1 s.2.2.1 ops s.2.2.2
+    (s.1 :: rs.1, rs.2.1, rs.2.2.1, rs.2.2.2)
+
 /-! ## zip iterator (two distinct arrays) -/
 
 /-- `cc_array_zip_iter_next` -/
@@ -335,17 +394,17 @@ def zipRemove (a1 a2 : Arr) (it : ArrIter) (m : Mem) :
      { index := it.index - 1, lastRemoved := true }, r2.2.2.2)
   else (.errValueNotFound, none, a1, a2, it, m)
 
-/-- `cc_array_zip_iter_add`: the cursor is advanced before the room check -/
+/-- `cc_array_zip_iter_add`: room is made in both arrays first; the cursor advances only when the
+call succeeds (A8).  The statuses of the two inner `add_at` calls are ignored, as in the C text. -/
 def zipAdd (a1 a2 : Arr) (it : ArrIter) (x y : Nat) (m : Mem) : Stat × Arr × Arr × ArrIter × Mem :=
   let index := it.index
-  let it := { it with index := it.index + 1 }
   let e1 := if a1.size = a1.capacity then a1.expandCapacity m else (.ok, a1, m)
   if e1.1 != .ok then (.errAlloc, e1.2.1, a2, it, e1.2.2) else
   let e2 := if a2.size = a2.capacity then a2.expandCapacity e1.2.2 else (.ok, a2, e1.2.2)
   if e2.1 != .ok then (.errAlloc, e1.2.1, e2.2.1, it, e2.2.2) else
   let r1 := e1.2.1.addAt x index e2.2.2
   let r2 := e2.2.1.addAt y index r1.2.2
-  (.ok, r1.2.1, r2.2.1, it, r2.2.2)
+  (.ok, r1.2.1, r2.2.1, { it with index := it.index + 1 }, r2.2.2)
 
 /-- `cc_array_zip_iter_replace` -/
 def zipReplace (a1 a2 : Arr) (it : ArrIter) (x y : Nat) (m : Mem) :
